@@ -181,6 +181,7 @@ func (e *Enc) applyCall(v ssa.Value, c *ssa.CallCommon, args []TV, in ssa.Instru
 	}
 	env.st = e.st
 	env.old = e.st
+	env.callerEntry = e.entry
 	for _, r := range ctr.Requires {
 		if strings.HasPrefix(r.Label, "nilable.") {
 			continue
@@ -477,6 +478,39 @@ func (e *Enc) modTargets(m Expr, env *Env) ([]modTarget, error) {
 				out = append(out, modTarget{e.heapKey(ss, i), a.S})
 			}
 			return out, nil
+		case "everyField": // everyField("pkg.T", "f"): field f of every object of struct type T (whole heap component)
+			if len(x.Args) != 2 {
+				return nil, fmt.Errorf("everyField(type, field)")
+			}
+			tl, ok1 := x.Args[0].(*StrLit)
+			fl, ok2 := x.Args[1].(*StrLit)
+			if !ok1 || !ok2 {
+				return nil, fmt.Errorf("everyField needs two string literals")
+			}
+			t, err := e.w.evalType(env.pkg, tl.V)
+			if err != nil {
+				return nil, err
+			}
+			st, ok := t.Underlying().(*types.Struct)
+			if !ok {
+				return nil, fmt.Errorf("everyField: %s is not a struct type", tl.V)
+			}
+			for i := 0; i < st.NumFields(); i++ {
+				if st.Field(i).Name() == fl.V {
+					return []modTarget{{e.heapKey(e.sortOf(t), i), ""}}, nil
+				}
+			}
+			return nil, fmt.Errorf("everyField: no field %s", fl.V)
+		case "everyElem": // everyElem("pkg.T"): the elements of every slice of T (whole backing-store component)
+			tl, ok := x.Args[0].(*StrLit)
+			if !ok {
+				return nil, fmt.Errorf("everyElem needs a string literal")
+			}
+			t, err := e.w.evalType(env.pkg, tl.V)
+			if err != nil {
+				return nil, err
+			}
+			return []modTarget{{e.arrKeyT(t), ""}}, nil
 		case "deref":
 			a, err := e.evalExpr(x.Args[0], env)
 			if err != nil {
